@@ -604,6 +604,38 @@ extend('C02',
        'Not covered: aliasing through call results, call-locality of the listed in-place mutations beyond the execution '
        'disciplines, state created during model construction (covered by the fresh-process disciplines).')
 
+extend('C07',
+       'ROUND 3 (front end) — for English the path from the TEXT of a clock time to the groups match_to_time reads is proved: '
+       'BaseTimeParser.parse_basic_regex_match is modelled (strip/lower, at_regex with the token-prefix retry and whole-text '
+       'test, the number-word branch, the exact_match loop over the twelve time_regexes, every pattern REGENERATED from the '
+       'working tree as an RE term); front_groups_en: for every layout of contracts/C07front.json (21 layouts) and every hour, '
+       'minute and second the front end hands over exactly the hour/min/sec groups and am/pm flags that clock24 / clock12 / '
+       'ambiguous_two_readings assume; front_clock24 / front_clock12 / front_ambiguous_two_readings compose the two — TIMEX and '
+       'value of the text are that time for all 86,400 HH:MM:SS times (kernel evaluation of the backtracking matcher on '
+       'abstract texts, made sound by matchK_mono / abs_refines_conc). ~34k unit operations per quick run against the real '
+       'parser object and regex module; thorough runs all 86,400 times per layout.',
+       'The time extractor and the prefix / suffix adjuster regexes remain assumptions (pipeline level).')
+extend('C03',
+       'HARDENING (audit) — the extraction theorems are statements about the DIGIT FAMILY of each extractor list on carriers '
+       'whose right part does not begin with a follower word (regenerated RTV/Gen/NumFollow: round-number words, suffix letters, '
+       '"dozen" …); that the remaining entries of the real list add nothing on such carriers is sampled every run (follower / '
+       'bounded ties on the exact Lean carriers), not proved; "a 7777 b", "… k", "… dozen" are outside the contract (witness '
+       'theorems); a digit literal followed by a multiplier word is lost entirely by the matched[] sweep (42 recorded findings '
+       'by culture x shape); number_literal_zero.')
+extend('C04',
+       'HARDENING (audit) — theorems start at the token list; for en / es / fr / de the tokeniser model, whose alternation IS the '
+       'real pattern\'s (alts_are_pattern), is inside the statement on samples (english_text_sample, spanish_/german_/'
+       'french_text_sample, ordinals); all other numerals and pt / it / nl are tied to the real tokeniser by the harness; the 8 '
+       'English variants are 8 texts and 4 token lists; compound-ordinal theorems give the value of the tokeniser\'s token list.')
+extend('C05',
+       'HARDENING (audit) — __merge_compound_unit is modelled on the Dec layer under the 15-digit context (Model/UnitCompound; '
+       'Props/C05Compound): compound_value_exact / compound_end_to_end — one entity in the main unit worth exactly N + M/ratio '
+       'when N 10^k + M (10^k/ratio) < 10^15, for every ratio of the tables (4, 5, 10, 20, 100, 1000, 10^8); beyond that the '
+       'cents are rounded (compound_precision_witness: the documented 15-digit precision); the real BaseCurrencyParser.parse is '
+       'compared on ~3.9k hand-built compounds per run; prefix end-to-end and ISO-code theorems (parse_prefix_unit, '
+       'iso_code_is_table_code); the row oracle\'s expected unit comes from the tables and the compound oracle checks unit and '
+       'ISO code.')
+
 ALL_IDS = ['C%02d' % i for i in range(1, 21)]
 PENDING = 'check not built yet in this revision (work in progress; see DESIGN.md §8 build order)'
 
